@@ -42,7 +42,9 @@ CLAIMS = {
     "C13": dict(
         text="For <=N conflicts with symbolic offsets (every sort order) the solver-explored paths show that grouping partitions the ungrouped report: every location is a leader or appears in exactly one "
              "'other place(s)' list of a leader with the same nil source, the printed count equals the list length, and nothing new appears.",
-        note="Partial: only the grouping sentence. The pretty-printing sentence is outside solver reach (regexp with capture groups); see DESIGN.md. ",
+        note="Grouping sentence: solver-decided over symbolic offsets. Pretty-printing sentence: the real PrettyPrintErrorMessage and regexp engine are executed from SSA on an enumerated family of message shapes "
+             "(no symbolic scalars: regular-expression matching over symbolic strings is out of solver reach) and stripping colours and prefix must give back the plain message. "
+             "Found and fixed (fix: commit): quoted spans lost their quotes, so `m[\"k\"]` was shown as `m[k]` and grouped positions lost theirs.",
     ),
     "C06": dict(
         text="Within the bounds the solver shows: an importer fed the exported fact (through the codec) reaches the same conflict/no-conflict answer and the same verdicts on visible sites as the "
